@@ -359,7 +359,46 @@ def model_table_rule(ctx, rule):
            "stack's own table (annotations shorter than the coordinates)", ga.lineno)
 
 
+_ARRAY_GETITEM = '''
+def __getitem__(self, index):
+    if isinstance(index, numbers.Integral):
+        return self.get_atom(index)
+    elif isinstance(index, tuple):
+        if len(index) == 2 and index[0] is Ellipsis:
+            return self.__getitem__(index[1])
+        else:
+            raise IndexError("'AtomArray' does not accept multidimensional indices")
+    else:
+        return self._subarray(index)
+'''
+
+
+def array_index_rules(ctx, prefix="R1"):
+    """which kind of index of an AtomArray goes where: an integer gives the atom, `(..., i)` is `i` (so `array[..., 2]` is an atom
+    as well), any other tuple is refused, everything else is a sub-array"""
+    from ..equiv import same_function
+    s = ctx.src(ATOMS)
+    f = s.func("AtomArray.__getitem__")
+    ok, shown = same_function(f, _ARRAY_GETITEM)
+    ctx.ob(f"{prefix}.array-index-dispatch", ATOMS, "AtomArray.__getitem__", "integer -> atom; (..., i) -> self[i]; other tuple refused; else sub-array", ok,
+           "the index dispatch of AtomArray computes " + shown, f.lineno)
+    # element assignment writes EVERY annotation category of the array (a category the atom does not have is a KeyError): the loop is over
+    # the array's table, not over the atom's
+    se = s.func("_AtomArrayBase._set_element")
+    atom_p = param_names(se)[2]
+    loops = [lp for lp in ast.walk(se) if isinstance(lp, ast.For) and any(
+        isinstance(t, ast.Subscript) and isinstance(t.ctx, ast.Store) and "_annot" in ast.unparse(t.value) for b in lp.body for t in ast.walk(b))]
+    ctx.need(len(loops) == 1, "the annotation loop of _set_element")
+    it = loops[0].iter
+    roots = {x.id for x in ast.walk(it) if isinstance(x, ast.Name)}
+    ctx.ob(f"{prefix}.element-assignment-covers-array-categories", ATOMS, "_AtomArrayBase._set_element", f"for .. in {ast.unparse(it)}",
+           "self" in roots and atom_p not in roots,
+           "the categories that are written are those of the ATOM: a category the array has and the atom lacks keeps the value of the atom "
+           "that was replaced (and no KeyError tells), so array[i] != atom after array[i] = atom", loops[0].lineno)
+
+
 def run(ctx):
+    array_index_rules(ctx, "R1")
     s = ctx.src(ATOMS)
     idx = ClassIndex(ctx, [ATOMS, BONDS, COPYABLE])
 
@@ -671,6 +710,10 @@ def run(ctx):
 
 
 MUTANTS = [
+    Mutant("ellipsis-index-to-subarray", ATOMS, "                return self.__getitem__(index[1])\n            else:\n                raise IndexError(\"'AtomArray' does not accept multidimensional indices\")",
+           "                return self._subarray(index[1])\n            else:\n                raise IndexError(\"'AtomArray' does not accept multidimensional indices\")", "R1.array-index-dispatch"),
+    Mutant("set-element-over-atom-categories", ATOMS, "                for name in self._annot:\n                    self._annot[name][index] = atom._annot[name]",
+           "                for name in atom._annot:\n                    self._annot[name][index] = atom._annot[name]", "R1.element-assignment-covers-array-categories"),
     Mutant("bonds-shorter-accepted", ATOMS, "                if value.get_atom_count() != self._array_length:\n", "                if value.get_atom_count() > self._array_length:\n", "R1.bonds-length-checked"),
     Mutant("length-decremented-before-delete", ATOMS, "            self._coord = np.delete(self._coord, index, axis=-2)\n            self._array_length = self._coord.shape[-2]\n",
            "            self._array_length -= 1\n            self._coord = np.delete(self._coord, index, axis=-2)\n", "R1.array-length"),
